@@ -1090,6 +1090,9 @@ func run(cx *lib.Ctx) {
 	stats := map[string]int{}
 	// safety net for an overloaded machine only: the case counts are sized to stay well inside the budget
 	budget := time.Duration(cx.Scale(55, 14*60)) * time.Second
+	if cx.Replay == "" {
+		directedRemainMaps(cx)
+	}
 	overBudget := func(stage string) bool {
 		if cx.Elapsed() > budget {
 			res.Notes = append(res.Notes, "time budget reached during "+stage+": remaining cases skipped")
